@@ -95,6 +95,17 @@ func init() {
 			sr.pre = []crSeg{{cut: "finalize", blks: s.puts[:1]}}
 			sr.puts = s.puts[1:]
 			c06RunSession(c, sr, 1, "witness-resumed-after-finalize")
+			// MaxAllowedSectionSize below the sections written (Put does not check it; Resume's
+			// re-index loop must not either): a fresh process, and one that resumes over such a section
+			lo := defaultWOpts
+			lo.maxS = 64
+			bigd := bytes.Repeat([]byte("over-the-section-limit "), 5) // 115 bytes of data
+			big := Blk{mkCid(1, 0x55, mh.SHA2_256, -1, bigd), bigd}
+			sl := c06Sess{kind: 1, o: lo, roots: []cid.Cid{root}, fin: true, puts: []Blk{big, s.puts[0]}}
+			c06RunSession(c, sl, 1, "section-limit-below-block")
+			sl2 := c06Sess{kind: 0, o: lo, roots: []cid.Cid{root}, fin: true,
+				pre: []crSeg{{cut: "discard", blks: []Blk{big}}}, puts: []Blk{s.puts[0]}}
+			c06RunSession(c, sl2, 1, "section-limit-below-block-resumed")
 		}
 		nSess := 11 * c.Scale
 		for i := 0; i < nSess; i++ {
